@@ -28,7 +28,7 @@ func (vc *VC) linearMode() bool {
 
 // beforeAtomic runs before a call of an atomic primitive inside a linearizable method.
 func (vc *VC) beforeAtomic(st *State, ci *calleeInfo, instr ssa.Instruction) {
-	if !vc.linearMode() || ci.contract == nil || !ci.contract.Atomic {
+	if !vc.linearMode() || ci.contract == nil || !(ci.contract.Atomic || ci.contract.Linearizable) {
 		return
 	}
 	site := vc.siteOf(instr)
